@@ -131,5 +131,29 @@ def iprint : Handler := fun args impl =>
     | none => bad "hex"
   | _ => bad "arity"
 
-def handlers : List (String × Handler) := [("int", int), ("acc", acc), ("iprint", iprint)]
+/-- `ival <cfg> <hex integer literal> => to_value(i128)|to_value(u128)|Number::from_i128|Number::from_u128` — integers INTO a Value
+    are exact or refused, never wrapped, and keep their kind: in the default build a Value holds exactly [i64::MIN, u64::MAX]
+    (to_value errs, from_i128 / from_u128 give None outside); under arbitrary_precision every 128-bit integer is held as its digits.
+    `n:=` means the Number equals the Number its own text parses to. -/
+def ival : Handler := fun args impl =>
+  match args with
+  | [c, h] =>
+    match bytesOfHex h with
+    | some bs =>
+      match partsOfLit bs with
+      | some p =>
+        let ap := (cfgOfTag c).ap
+        let n : Int := natOfDigits p.int
+        let x : Int := if p.neg then -n else n
+        let digits := decimalOf x
+        let inVal := (-(2:Int)^63 ≤ x) && (x < (2:Int)^64)
+        let tv := if ap then s!"Vl{hexOfBytes digits};" else if !inVal then "ERR" else if x ≥ 0 then s!"Vi{x};" else s!"Vj{-x};"
+        let nm := if ap || inVal then s!"{x}:=" else "N"
+        let e := if x ≥ 0 then s!"{tv}|{tv}|{nm}|{nm}" else s!"{tv}|-|{nm}|-"
+        { model := e, specs := if impl == e then [] else [s!"C06 integer {x} into a Value (to_value i128 | u128 | Number::from_i128 | from_u128): got {impl}, expected {e}"] }
+      | none => bad "literal"
+    | none => bad "hex"
+  | _ => bad "arity"
+
+def handlers : List (String × Handler) := [("int", int), ("acc", acc), ("iprint", iprint), ("ival", ival)]
 end SJ.Drv.C06
